@@ -19,7 +19,7 @@ LEVEL = 'exploration'
 RULE = ('case = key shape (generated from the seed) or a concatenation of shapes; one evaluation per export/import pass compared; non-trivial = shape with at '
         'least two components carrying signatures, or a non-exportable signature, or equal creation times; distinct = distinct shape descriptors')
 ASSUMPTIONS = ['vf.ref.grammar transferable-key parser (11.1/11.2)', 'signature validity per vf.ref.sig']
-MIN_COUNTERS = {'quick': {'shapes': 100, 'passes_compared': 500, 'signatures_reverified': 1500, 'nonexportable_seen': 20, 'concatenations': 20, 'copies': 120, 'foreign_encoded_keys': 15, 'generated_keys': 10, 'mixed_concatenations': 6, 'held_public_exports': 30, 'reprotected_exports': 20},
+MIN_COUNTERS = {'quick': {'shapes': 100, 'passes_compared': 500, 'signatures_reverified': 1500, 'nonexportable_seen': 20, 'concatenations': 20, 'copies': 120, 'foreign_encoded_keys': 15, 'generated_keys': 10, 'mixed_concatenations': 6, 'held_public_exports': 30, 'reprotected_exports': 20, 'lapsed_binding_exports': 20},
                 'thorough': {'shapes': 1500}}
 BUDGET = {'quick': (600, 1500), 'thorough': (1800, 3600)}
 TECHNIQUE = 'runtime monitoring: differential reference-model monitor (independent transferable-key parser + verifier) over generated key shapes'
@@ -48,6 +48,9 @@ def cases(tier, seed):
     # the public half is taken early (and kept by the caller) while the key keeps growing
     for i in range(16 if tier == 'quick' else 400):
         cs.append({'t': 'heldpub', 'i': i, 'seed': seed, 'keep': ['strong', 'strong', 'dropped', 'list'][i % 4]})
+    # subkeys whose binding signature has lapsed (its own expiration time has passed): still part of the key that is exported and imported
+    for i in range(6 if tier == 'quick' else 60):
+        cs.append({'t': 'lapsed_binding', 'i': i, 'seed': seed})
     # keys whose protection is changed (other passphrase, cipher of another block size, other hash) before they are exported
     for i in range(12 if tier == 'quick' else 200):
         cs.append({'t': 'reprotected', 'i': i, 'seed': seed})
@@ -93,6 +96,8 @@ def run_case(ctx, d):
             _foreignenc(ctx, d, pgpy)
         elif d['t'] == 'heldpub':
             _heldpub(ctx, d, pgpy)
+        elif d['t'] == 'lapsed_binding':
+            _lapsed_binding(ctx, d, pgpy)
         elif d['t'] == 'reprotected':
             _reprotected(ctx, d, pgpy)
         else:
@@ -277,6 +282,51 @@ def _concat(ctx, d, pgpy):
             if dd:
                 ctx.fail('concatenated-key-structure-differs', {'n': n, 'form': form, 'differs': dd})
     ctx.nontrivial({'concat': d['i'], 'n': n})
+
+
+def _lapsed_binding(ctx, d, pgpy):
+    """a subkey whose only binding signature carries a signature expiration time that has passed (and one with a lapsed and a current binding):
+    export and import keep the subkey and its signatures, in both halves and both forms"""
+    from datetime import datetime, timezone, timedelta
+    from pgpy.constants import KeyFlags
+    prim = ['ed25519_0', 'rsa1024_0', 'ecdsa_p256_0'][d['i'] % 3]
+    k = pool.pgpy_key(prim, uid='Lapsed Binding %d' % d['i'], fresh=True)
+    long_ago = datetime.now(timezone.utc) - timedelta(days=30 + d['i'])
+    subs = [('cv25519_1', {KeyFlags.EncryptCommunications}), ('ed25519_3', {KeyFlags.Sign})]
+    for n_, (sn, us) in enumerate(subs):
+        k.add_subkey(pool.pgpy_bare(sn), usage=us, created=long_ago, expires=timedelta(days=7))
+    if d['i'] % 2:
+        # the second subkey also gets a current binding next to the lapsed one
+        sk = list(k.subkeys.values())[1]
+        sk |= k.bind(sk, usage={KeyFlags.Sign})
+    want_subs = sorted(str(x.fingerprint) for x in k.subkeys.values())
+    for half, obj in (('private', k), ('public', k.pubkey)):
+        for form, data in (('binary', bytes(obj)), ('armor', str(obj))):
+            ctx.count('lapsed_binding_exports')
+            ctx.count('passes_compared')
+            ctx.count('evaluations')
+            where = {'case': d, 'half': half, 'form': form}
+            try:
+                bt = keyshape.blob_tree(bytes(obj))[0]
+                k2 = pgpy.PGPKey.from_blob(data)[0]
+            except Exception as e:
+                ctx.fail('own-export-not-importable', dict(where, err=repr(e)[:160]))
+                continue
+            got = sorted(str(x.fingerprint) for x in k2.subkeys.values())
+            if got != want_subs or len(bt['subkeys']) != len(want_subs):
+                ctx.fail('subkey-fingerprints-change', dict(where, before=want_subs, after=got, exported=len(bt['subkeys'])))
+                continue
+            dd = keyshape.tree_diff(bt, keyshape.obj_tree(k2))
+            if dd:
+                ctx.fail('imported-structure-differs-from-export', dict(where, differs=dd))
+            if bytes(k2) != bytes(obj):
+                try:
+                    same = keyshape.blob_tree(bytes(k2))[0] == bt
+                except Exception:
+                    same = False
+                if not same:
+                    ctx.fail('second-export-differs', dict(where, lens=[len(bytes(obj)), len(bytes(k2))]))
+    ctx.nontrivial(d)
 
 
 def _reprotected(ctx, d, pgpy):
